@@ -96,6 +96,14 @@ theorem persist_skips_only_clean (ti : Info) (h : ti.modifiedWith true = false) 
 
 theorem gen_persist_checks_all_indexes : Gsu.Gen.Dbphys.persistChecksAllIndexes = true := rfl
 
+/-- (G) LayeredOnto stamps the committed table info with the clock of the LATEST state
+(`ti.lastMod = latest.info.Clock`), so `lastMod` never goes backwards; with the clock of the
+transaction's older snapshot a persist that runs before the commit is merged can merge away the
+chunk holding the table's current persisted version and writes a state that cannot be read back
+(findings/C16.md, fixes/46). The metadata chain itself is C15's model; here only the fact is
+regenerated and the suites' `reopen-metadata-cksum` oracle + scripted schedule tie the behaviour. -/
+theorem gen_layered_onto_stamps_latest_clock : Gsu.Gen.Dbphys.layeredOntoStampsLatestClock = true := rfl
+
 -- non-vacuity: a snapshot with two layers, one more commit, merge of the two older layers
 example : ∃ (latest snap : Overlay) (new : List Layer),
     latest.layers = snap.layers ++ new ∧ 1 + 1 ≤ snap.layers.length ∧ new ≠ [] ∧
